@@ -107,7 +107,7 @@ def replay_fs(eng, ob, model, seed):
     d = tempfile.mkdtemp(prefix="gwfverif-")
     problems, tried = [], 0
     try:
-        files = {"old.txt": 1000000000.0, "new.txt": 1500000000.5, "sub/deep.txt": 1234567890.25}
+        files = {"old.txt": 1000000000.0, "new.txt": 1500000000.5, "sub/deep.txt": 1234567890.25, "epoch.txt": 0.0}
         os.makedirs(os.path.join(d, "sub"))
         for rel, mt in files.items():
             open(os.path.join(d, rel), "w").close()
@@ -136,6 +136,6 @@ def replay_fs(eng, ob, model, seed):
     finally:
         shutil.rmtree(d, ignore_errors=True)
     if not problems:
-        return {"failed_on_real_code": False, "candidates_tried": tried, "bound": "3 files + 2 absent paths, two query orders"}
+        return {"failed_on_real_code": False, "candidates_tried": tried, "bound": "4 files (one dated at the epoch) + 2 absent paths, two query orders"}
     return {"failed_on_real_code": True, "input": {"files (mtime)": files}, "observed": problems[:4],
             "candidates_tried": tried, "witness_class": "cached-filesystem", "call": "gwf.core.CachedFilesystem() on a temporary directory"}
